@@ -35,7 +35,9 @@ fn provenance<L: Tab>(n: usize, w: &[u64], prov: &str) -> L {
     match p[0] {
         "blocks" => base,
         "clone" => base.clone(),
-        "hex" => L::t_from_hex(n, &base.t_hex()).expect("harness: hex round trip"),
+        // a parser that rejects the printed table is a defect of the subject (C09's subject
+        // matter), not of the harness: the unparsed original is used and C09 reports it
+        "hex" => L::t_from_hex(n, &base.t_hex()).unwrap_or(base),
         "notnot" => base.t_not().t_not(),
         "cfrom" => base.t_clone_from_into(num(1)),
         "cfrom2" => {
